@@ -33,6 +33,8 @@ import (
 	"github.com/ovrclk/akash/manifest"
 	akashfake "github.com/ovrclk/akash/pkg/client/clientset/versioned/fake"
 	"github.com/ovrclk/akash/provider/cluster/kube"
+	mtypes "github.com/ovrclk/akash/x/market/types"
+	k8sfake "k8s.io/client-go/kubernetes/fake"
 )
 
 type faultSpec struct {
@@ -147,7 +149,8 @@ func runFaulted(in *caseInput, f *faultSpec, stats *faultStats) ([]violation, []
 		derr := cl.Deploy(ctx, lid, sp.group)
 		if !disturbed {
 			if derr != nil {
-				return nil, nil, machineryError{fmt.Sprintf("undisturbed Deploy#%d: %v", i+1, derr)}
+				// an undisturbed Deploy that fails: first judge what it did, then report the failure
+				return judgeFailedDeploy(fmt.Sprintf("undisturbed deploy#%d", i+1), lid, kc, derr), nil, machineryError{fmt.Sprintf("undisturbed Deploy#%d: %v", i+1, derr)}
 			}
 			continue
 		}
@@ -155,7 +158,7 @@ func runFaulted(in *caseInput, f *faultSpec, stats *faultStats) ([]violation, []
 		trace = inj.trace
 		if len(inj.hit) == 0 || f.Call2 > 0 && len(inj.hit) < 2 {
 			if derr != nil && len(inj.hit) == 0 {
-				return nil, nil, machineryError{fmt.Sprintf("fault-free Deploy#%d: %v", i+1, derr)}
+				return judgeFailedDeploy(fmt.Sprintf("fault-free deploy#%d", i+1), lid, kc, derr), nil, machineryError{fmt.Sprintf("fault-free Deploy#%d: %v", i+1, derr)}
 			}
 			return nil, trace, nil // probe run, or the second position of a pair was not reached after the first fault
 		}
@@ -238,6 +241,19 @@ func runFaulted(in *caseInput, f *faultSpec, stats *faultStats) ([]violation, []
 	return out, trace, nil
 }
 
+// judgeFailedDeploy: a Deploy that fails although no fault was injected is judged on what it did
+// (API calls and objects must stay inside the lease namespace) before the failure is reported.
+func judgeFailedDeploy(stage string, lid mtypes.LeaseID, kc *k8sfake.Clientset, derr error) []violation {
+	ns := kube.VerifLidNS(lid)
+	a := &checkCtx{lid: lid, ns: ns, stage: stage + " (failed: " + derr.Error() + ")"}
+	auditActions(a, kc.Actions())
+	out := a.out
+	if all, err := listAll(kc); err == nil {
+		out = append(out, objectsOutside(a.stage, all, ns)...)
+	}
+	return out
+}
+
 func outcomeClass(key string) string {
 	// "#12 create networkpolicies -> internal" -> "create networkpolicies -> internal"
 	parts := strings.Split(key, "#")
@@ -288,19 +304,23 @@ func relabelFault(vs []violation, o *objects) []violation {
 func evalFault(in *caseInput, pairs bool, stats *faultStats, report func([]violation, *caseInput)) error {
 	if in.Fault != nil {
 		vs, _, err := runFaulted(in, in.Fault, stats)
-		if err != nil {
-			return err
+		if len(vs) > 0 || err == nil {
+			report(vs, in)
 		}
-		report(vs, in)
-		return nil
+		return err
 	}
 	steps := deploySteps(in)
 	stats.samples++
 	for step := 1; step <= len(steps); step++ {
 		// fault-free run up to and including this step fixes the call list of the step
 		probe := &faultSpec{Step: step, Call: 1 << 30, Kind: "internal"}
-		_, trace, err := runFaulted(in, probe, nil)
+		pvs, trace, err := runFaulted(in, probe, nil)
 		if err != nil {
+			if len(pvs) > 0 {
+				c := *in
+				c.Fault = probe
+				report(pvs, &c)
+			}
 			return err
 		}
 		stats.positions += int64(len(trace))
@@ -310,6 +330,11 @@ func evalFault(in *caseInput, pairs bool, stats *faultStats, report func([]viola
 				f := &faultSpec{Step: step, Call: k, Kind: kind, What: trace[k-1]}
 				vs, tr2, err := runFaulted(in, f, stats)
 				if err != nil {
+					if len(vs) > 0 {
+						c := *in
+						c.Fault = f
+						report(vs, &c)
+					}
 					return err
 				}
 				if len(vs) > 0 {
@@ -325,6 +350,11 @@ func evalFault(in *caseInput, pairs bool, stats *faultStats, report func([]viola
 					f2 := &faultSpec{Step: step, Call: k, Kind: kind, What: trace[k-1] + " & " + tr2[k2-1], Call2: k2, Kind2: "internal"}
 					vs, _, err := runFaulted(in, f2, stats)
 					if err != nil {
+						if len(vs) > 0 {
+							c := *in
+							c.Fault = f2
+							report(vs, &c)
+						}
 						return err
 					}
 					if len(vs) > 0 {
